@@ -83,6 +83,13 @@ def cases(tier: str, seed: int) -> List[Dict[str, Any]]:
         for env in ("no_grad", "inference_mode", "default_dtype=float64", "default_dtype=bfloat16", "default_dtype=float16", "noncontiguous", "expanded_batch"):
             for dt in ("float64", "float32"):
                 out.append({"kind": "probe", "op": name, "cfg": dict(default_cfg(op), dtype=dt), "seed": seed, "env": env})
+    # call-form coordinate: the same configuration with every argument positional / every argument by
+    # keyword / integral floats as ints and lists as tuples - over all single deviations of the lattice
+    from checks._probe_common import lattice_cases as _lc
+
+    for c_ in _lc(tier, seed, d=1, fixed={"dtype": "float64"}):
+        for form in ("positional", "keyword", "numforms"):
+            out.append(dict(c_, env=f"argform={form}"))
     # value magnitude (all finite values): scale-free ops in low precision with large / tiny inputs
     for name in ("rms_norm", "layer_norm", "softmax"):
         for dt in ("float16", "bfloat16", "float32"):
